@@ -330,7 +330,8 @@ allocation is at most the ring size. -/
 theorem nextPacket_spec (sz : Nat) (avail : Bytes) :
     (nextPacket sz avail).outcome ≠ .panicked ∧ (nextPacket sz avail).outcome ≠ .stuck ∧
     (∀ d total, (nextPacket sz avail).outcome = .packet d total →
-      1 ≤ total ∧ total ≤ avail.length ∧ total ≤ sz ∧ ∃ t, decodeNew t (avail.take total) = .ok d) ∧
+      1 ≤ total ∧ total ≤ avail.length ∧ total ≤ sz ∧ (∃ t, decodeNew t (avail.take total) = .ok d) ∧
+      publishIdMissing d.msg = false) ∧
     (∀ a ∈ (nextPacket sz avail).allocs, a ≤ sz) := by
   have hs := peekMessageSize_ok sz avail
   unfold nextPacket
@@ -362,13 +363,21 @@ theorem nextPacket_spec (sz : Nat) (avail : Bytes) :
         | panic => exact absurd hd (decodeNew_ne_panic _ _)
         | err => exact ⟨by simp, by simp, by simp, ha'⟩
         | ok d =>
-          refine ⟨by simp, by simp, ?_, ha'⟩
-          intro d' total' he
-          injection he with e1 e2
-          subst e1 e2
-          refine ⟨?_, hlen, hsz, mtype, hd⟩
-          cases h0 : total.toNat with
-          | zero => rw [h0, List.take_zero, decodeNew_nil] at hd; cases hd
-          | succ k => omega
+          simp only
+          have hfact : framingRejectsPublishIdZero = true := by decide
+          cases hm : publishIdMissing d.msg with
+          | true =>
+            simp only [hfact, Bool.and_self, ↓reduceIte]
+            exact ⟨by simp, by simp, by simp, ha'⟩
+          | false =>
+            simp only [hfact, Bool.true_and, Bool.false_eq_true, ↓reduceIte]
+            refine ⟨by simp, by simp, ?_, ha'⟩
+            intro d' total' he
+            injection he with e1 e2
+            subst e1 e2
+            refine ⟨?_, hlen, hsz, ⟨mtype, hd⟩, hm⟩
+            cases h0 : total.toNat with
+            | zero => rw [h0, List.take_zero, decodeNew_nil] at hd; cases hd
+            | succ k => omega
 
 end Mqtt.Proofs.Framing
